@@ -41,6 +41,9 @@ MIN_REACH = {
     "hist_series_compared": {"quick": 80, "thorough": 1200},
     "heatmap_cells_compared": {"quick": 500, "thorough": 8000},
     "heatmap_norms_compared": {"quick": 15, "thorough": 250},
+    "heatmap_colour_maps_compared": {"quick": 4, "thorough": 80},
+    "panel_titles_read_back": {"quick": 100, "thorough": 1500},
+    "histograms_with_explicit_axis_limits": {"quick": 5, "thorough": 100},
     "explicit_colour_limits": {"quick": 8, "thorough": 150},
     "auto_plots_with_x_values_per_line_and_square_shape": {"quick": 3, "thorough": 50},
 }
@@ -110,6 +113,9 @@ def cases(ctx):
             o["line_widths"] = [0.5, 2.0]
         if kind.startswith("histogram") or kind == "auto_histogram":
             o["bins"] = rng.choice([5, 10, 30, "edges"])
+            if c["dseed"] % 3 == 0 and not o.get("xlog"):       # (a log axis cannot show the negative limit)
+                # explicit axis limits narrower than the data: they set the view, not what is binned
+                o["xlims"] = (-0.5, 0.75)
         # the colour-mapped quantity starts at exactly 0 (count-like data), and explicit colour limits incl. 0
         c["zero_floor"] = rng.random() < 0.3
         c["dup_z"] = rng.random() < 0.15
@@ -171,6 +177,8 @@ def build(case):
         gorders = ["asc", "desc", "shuffled"]
         if case["use_row"] or not case["use_col"]:
             coords["r"] = _axis(rng, case["nr"], ["float", "str"][case["dseed"] % 2], gorders[case["dseed"] % 3], lo=0.5)
+            if coords["r"] and not isinstance(coords["r"][0], str) and case["dseed"] % 5 == 3:
+                coords["r"] = [round(v * 1e-5, 9) for v in coords["r"]]       # small magnitudes (a learning rate, a tolerance)
             if coords["r"] and isinstance(coords["r"][0], str):
                 coords["r"] = [["small", "medium", "large", "xl"][int(v[1:])] for v in coords["r"]]
             dims.insert(0, "r")
@@ -556,7 +564,7 @@ def run_case(ctx, case):
             elif base == "histogram":
                 fig = xyzpy.histogram(ds, "y", "z", **kw)
             elif base == "heatmap":
-                hk = {k: v for k, v in kw.items() if k in ("colormap", "title", "row", "col", "colorbar", "vmin", "vmax")}
+                hk = {k: v for k, v in kw.items() if k in ("colormap", "colormap_reverse", "title", "row", "col", "colorbar", "vmin", "vmax")}
                 fig = xyzpy.heatmap(ds, "x", "z", "y", **hk)
             elif base == "auto_lineplot":
                 o = {k: v for k, v in o.items() if k in ("colors", "colormap", "colormap_reverse", "markers", "legend")}
@@ -565,7 +573,8 @@ def run_case(ctx, case):
                 o = {k: v for k, v in o.items() if k in ("colors", "colormap", "colormap_reverse", "legend")}
                 fig = xyzpy.auto_scatter(_auto_x(case, ds), ds["y"].transpose("z", "x").values, **o)
             elif base == "auto_histogram":
-                fig = xyzpy.auto_histogram(ds["y"].transpose("z", "x").values, bins=kw.get("bins", 30))
+                fig = xyzpy.auto_histogram(ds["y"].transpose("z", "x").values, bins=kw.get("bins", 30),
+                                           **({"xlims": kw["xlims"]} if "xlims" in kw else {}))
             elif base == "auto_heatmap":
                 fig = xyzpy.auto_heatmap(ds["y"].transpose("z", "x").values)
     except Exception as e:
@@ -628,13 +637,15 @@ def run_case(ctx, case):
                     ctx.count("panels_compared")
                     bad.extend("panel (row %r, col %r): %s" % (rv, cv, m) for m in b[:1])
                     if i == 0 and cv is not None:
-                        want_t = "c = %s" % _prettify(cv)
-                        if ax.get_title() != want_t:
-                            bad.append("panel (0, %d) is titled %r, expected %r" % (j, ax.get_title(), want_t))
+                        ctx.count("panel_titles_read_back")
+                        d = _names_coordinate(ax.get_title(), "c", cv)
+                        if d:
+                            bad.append("panel (0, %d) is titled %r: %s" % (j, ax.get_title(), d))
                     if j == len(cols) - 1 and rv is not None:
-                        want_l = "r = %s" % _prettify(rv)
-                        if ax.get_ylabel() != want_l:
-                            bad.append("panel (%d, last) is labelled %r, expected %r" % (i, ax.get_ylabel(), want_l))
+                        ctx.count("panel_titles_read_back")
+                        d = _names_coordinate(ax.get_ylabel(), "r", rv)
+                        if d:
+                            bad.append("panel (%d, last) is labelled %r: %s" % (i, ax.get_ylabel(), d))
         else:
             used = ds.isel(z=0) if multivar else ds
             b = judge_line_axes(ctx, axes[0], used, case, o, xname, ynames, zvals if not multivar else [None], base, labels, want_colors, errs)
@@ -695,6 +706,10 @@ def run_case(ctx, case):
                 ctx.count("hist_panels_with_empty_series")
                 continue
             allv = np.concatenate(samples)
+            if "xlims" in kw:
+                ctx.count("histograms_with_explicit_axis_limits")
+                if tuple(ax.get_xlim()) != tuple(kw["xlims"]):
+                    bad.append("xlims=%r asked for, the axis shows %r" % (kw["xlims"], ax.get_xlim()))
             bins = kw.get("bins", 30)
             edges = np.histogram_bin_edges(allv, bins=bins)
             polys = {p.get_label(): p for p in ax.patches}
@@ -740,6 +755,15 @@ def run_case(ctx, case):
                 if wlo < whi and not (mesh.norm.vmin == wlo and mesh.norm.vmax == whi):      # (a single value has no range: matplotlib widens it)
                     bad.append("heat-map panel (%d, %d) is colour-normalised over (%r, %r) instead of (%r, %r)" % (
                         i, j, mesh.norm.vmin, mesh.norm.vmax, wlo, whi))
+                    break
+            if base == "heatmap" and "colormap" in o:
+                # the colours of the mesh are the CHOSEN colour map (reversed if asked) at the normalised values
+                cm_ = expected_cmap(o.get("colormap"), bool(o.get("colormap_reverse")))
+                probe_v = np.linspace(0.0, 1.0, 7)
+                ctx.count("heatmap_colour_maps_compared")
+                if not np.allclose(np.asarray(mesh.cmap(probe_v))[:, :3], np.asarray(cm_(probe_v))[:, :3], atol=2e-3):
+                    bad.append("heat-map panel (%d, %d) is drawn with colour map %r, chosen: %r%s" % (
+                        i, j, getattr(mesh.cmap, "name", mesh.cmap), o.get("colormap"), " reversed" if o.get("colormap_reverse") else ""))
                     break
             arr = np.ma.masked_invalid(np.ma.asarray(mesh.get_array(), dtype=float))
             coords_xy = np.asarray(mesh.get_coordinates(), dtype=float)
@@ -801,10 +825,20 @@ def run_case(ctx, case):
                 info={"axes": len(fig.axes) if fig is not None else 0, "options": sorted(kw)})
 
 
-def _prettify(x):
-    if isinstance(x, (float, np.floating)):
-        s = "{0:0.4f}".format(x).rstrip("0")
-        if s[-1] == ".":
-            s += "0"
-        return s
-    return x
+def _names_coordinate(text, dim, coord):
+    """Does the panel title / label '<dim> = <value>' name THIS coordinate?  Read back, not re-formatted: text labels must
+    be shown as they are, numbers must read back as the coordinate to three significant digits (how many digits are
+    shown is the library's choice, naming another number - e.g. 0.0 for 1e-5 - is not)."""
+    head = "%s = " % dim
+    if not text.startswith(head):
+        return "does not start with %r" % head
+    shown = text[len(head):]
+    if isinstance(coord, (float, np.floating)):
+        try:
+            v = float(shown)
+        except ValueError:
+            return "%r is not a number, the coordinate is %r" % (shown, coord)
+        if abs(v - float(coord)) > 2e-3 * abs(float(coord)):
+            return "it reads as %r, the coordinate is %r" % (v, coord)
+        return None
+    return None if shown == str(coord) else "the coordinate is %r" % (coord,)
